@@ -73,8 +73,11 @@ Proof.
       rewrite ?nonempty_app; cbn; rewrite ?orb_true_r, ?orb_false_r; cbn; reflexivity.
 Qed.
 
+Section WithExt.
+Variable cx : name -> list value -> res value.
+
 Definition rtriple (q : request) (es : entities) (p : rpolicy) : triple :=
-  (rp_id p, rp_effect p, outcome_of (reval_policy q es (rp_res p))).
+  (rp_id p, rp_effect p, outcome_of (reval_policy cx q es (rp_res p))).
 Definition ptriple (q : request) (es : entities) (p : policy) : triple :=
   (pid p, peffect p, outcome_of (eval_policy q es p)).
 
@@ -83,7 +86,7 @@ Lemma fold_left_map {A B C} (f : C -> B -> C) (g : A -> B) (l : list A) : forall
 Proof. induction l; intros; cbn; auto. Qed.
 
 Lemma reauthorize_dec rs q es :
-  rdecision (reauthorize rs q es) = dec_from empty_buckets (map (rtriple q es) rs).
+  rdecision (reauthorize cx rs q es) = dec_from empty_buckets (map (rtriple q es) rs).
 Proof.
   unfold reauthorize. rewrite <- fold_dec. f_equal. f_equal.
   rewrite <- fold_left_map. reflexivity.
@@ -97,19 +100,19 @@ Proof.
 Qed.
 
 (* a policy in the true / false / error bucket has that outcome on EVERY request and store *)
-Lemma bucket_true_sat q es r : bucket_of r = KTrue -> reval_policy q es r = Ok true.
+Lemma bucket_true_sat q es r : bucket_of r = KTrue -> reval_policy cx q es r = Ok true.
 Proof.
   destruct r as [v| | | | | | | | | | | | | | ]; cbn; try discriminate.
   destruct v as [p| | |]; try discriminate. destruct p as [b| | |]; try discriminate.
   destruct b; [reflexivity|discriminate].
 Qed.
-Lemma bucket_false_unsat q es r : bucket_of r = KFalse -> reval_policy q es r = Ok false.
+Lemma bucket_false_unsat q es r : bucket_of r = KFalse -> reval_policy cx q es r = Ok false.
 Proof.
   destruct r as [v| | | | | | | | | | | | | | ]; cbn; try discriminate.
   destruct v as [p| | |]; try discriminate. destruct p as [b| | |]; try discriminate.
   destruct b; [discriminate|reflexivity].
 Qed.
-Lemma bucket_error_err q es r : bucket_of r = KError -> reval_policy q es r = Err ErrUnknownFn.
+Lemma bucket_error_err q es r : bucket_of r = KError -> reval_policy cx q es r = Err ErrUnknownFn.
 Proof.
   destruct r as [v| | | | | | | | | | | | | | ]; cbn; try discriminate; try reflexivity.
   destruct v as [p| | |]; try discriminate. destruct p as [b| | |]; try discriminate.
@@ -141,12 +144,12 @@ Proof.
   - rewrite (bucket_false_unsat q es _ E); destruct (rp_effect p); reflexivity.
   - rewrite (bucket_error_err q es _ E); destruct (rp_effect p); reflexivity.
   - destruct (rp_effect p), eff; cbn in *; try discriminate;
-      destruct (outcome_of (reval_policy q es (rp_res p))); reflexivity.
+      destruct (outcome_of (reval_policy cx q es (rp_res p))); reflexivity.
 Qed.
 
 (* a definite TPE decision is the decision of reauthorization on every request and store *)
 Lemma decision_reauthorize rs d : tpe_decision rs = Some d ->
-  forall q es, rdecision (reauthorize rs q es) = d.
+  forall q es, rdecision (reauthorize cx rs q es) = d.
 Proof.
   intros H q es. rewrite reauthorize_dec. unfold dec_from, empty_buckets; cbn.
   unfold tpe_decision in H.
@@ -171,19 +174,19 @@ Definition same_class (a b : outcome) : Prop :=
   end.
 Definition policy_sound (q : request) (es : entities) (p : policy) (r : rpolicy) : Prop :=
   pid p = rp_id r /\ peffect p = rp_effect r /\
-  same_class (outcome_of (eval_policy q es p)) (outcome_of (reval_policy q es (rp_res r))).
+  same_class (outcome_of (eval_policy q es p)) (outcome_of (reval_policy cx q es (rp_res r))).
 
 Lemma sound_existsb q es eff ps rs : Forall2 (policy_sound q es) ps rs ->
   existsb (is_sat_eff eff) (map (ptriple q es) ps) = existsb (is_sat_eff eff) (map (rtriple q es) rs).
 Proof.
   induction 1 as [|p r ps rs [Hi [He Hc]] _ IH]; cbn; [reflexivity|].
   rewrite IH. f_equal. unfold ptriple, rtriple. rewrite He.
-  destruct (outcome_of (eval_policy q es p)), (outcome_of (reval_policy q es (rp_res r)));
+  destruct (outcome_of (eval_policy q es p)), (outcome_of (reval_policy cx q es (rp_res r)));
     cbn in Hc; try contradiction; destruct (rp_effect r), eff; reflexivity.
 Qed.
 
 Lemma reauthorize_concrete q es ps rs : Forall2 (policy_sound q es) ps rs ->
-  rdecision (is_authorized ps q es) = rdecision (reauthorize rs q es).
+  rdecision (is_authorized ps q es) = rdecision (reauthorize cx rs q es).
 Proof.
   intros H. rewrite is_authorized_dec, reauthorize_dec. unfold dec_from.
   rewrite (sound_existsb q es Permit _ _ H), (sound_existsb q es Forbid _ _ H). reflexivity.
@@ -200,9 +203,9 @@ Lemma filter_none {A} (f : A -> bool) (l : list A) : (forall x, f x = false) -> 
 Proof. intros H; induction l as [|x l IH]; cbn [filter]; [reflexivity|]. rewrite H, IH; reflexivity. Qed.
 
 Lemma query_filter fill hole rs es :
-  (forall d, tpe_decision rs = Some d -> forall q, rdecision (reauthorize rs q es) = d) ->
-  query fill hole rs es =
-  filter (fun u => decision_eqb (rdecision (reauthorize rs (fill u) es)) Allow)
+  (forall d, tpe_decision rs = Some d -> forall q, rdecision (reauthorize cx rs q es) = d) ->
+  query cx fill hole rs es =
+  filter (fun u => decision_eqb (rdecision (reauthorize cx rs (fill u) es)) Allow)
          (filter (fun u => name_eqb (uty u) hole) (map fst es)).
 Proof.
   intros H. unfold query. destruct (tpe_decision rs) as [[|]|] eqn:E; [| |reflexivity].
@@ -211,15 +214,15 @@ Proof.
 Qed.
 
 Lemma query_exact fill hole rs es :
-  query fill hole rs es =
-  filter (fun u => decision_eqb (rdecision (reauthorize rs (fill u) es)) Allow)
+  query cx fill hole rs es =
+  filter (fun u => decision_eqb (rdecision (reauthorize cx rs (fill u) es)) Allow)
          (filter (fun u => name_eqb (uty u) hole) (map fst es)).
 Proof. apply query_filter. intros d Hd q. apply decision_reauthorize; exact Hd. Qed.
 
 (* given per-policy soundness on every candidate request, the query is the brute-force filter on the ORIGINAL policies *)
 Lemma query_brute fill hole ps rs es :
   (forall u, Forall2 (policy_sound (fill u) es) ps rs) ->
-  query fill hole rs es =
+  query cx fill hole rs es =
   filter (fun u => decision_eqb (rdecision (is_authorized ps (fill u) es)) Allow)
          (filter (fun u => name_eqb (uty u) hole) (map fst es)).
 Proof.
@@ -229,14 +232,14 @@ Qed.
 
 (* query_action: a listed Some Allow is sound, and an action whose decision is not a definite Deny is listed *)
 Lemma query_action_label per a : In (a, Some Allow) (query_action per) ->
-  exists rs, In (a, rs) per /\ forall q es, rdecision (reauthorize rs q es) = Allow.
+  exists rs, In (a, rs) per /\ forall q es, rdecision (reauthorize cx rs q es) = Allow.
 Proof.
   unfold query_action. intros H. apply filter_In in H as [H _]. apply in_map_iff in H as [[a' rs] [E Hin]].
   cbn in E. inversion E; subst. exists rs. split; [exact Hin|].
   intros q es. apply decision_reauthorize. assumption.
 Qed.
 
-Lemma query_action_complete per a rs q es : In (a, rs) per -> rdecision (reauthorize rs q es) = Allow ->
+Lemma query_action_complete per a rs q es : In (a, rs) per -> rdecision (reauthorize cx rs q es) = Allow ->
   exists d, In (a, d) (query_action per) /\ d <> Some Deny.
 Proof.
   intros Hin Hd. exists (tpe_decision rs). 
@@ -248,53 +251,9 @@ Proof.
   - cbn. destruct (tpe_decision rs) as [[|]|]; try reflexivity. contradiction Hn; reflexivity.
 Qed.
 
-(* ---------------------------------------------------------------- interp: the covered fragment *)
-From Cedar Require Import ValueProofs.
-
-(* the two absorbing simplifications, under the no-error side condition on the dropped operand *)
-Lemma and_false_sound q es l b : reval q es l = Ok (VBool b) ->
-  reval q es (RAnd l (RVal (VBool false))) = reval q es (RVal (VBool false)).
-Proof. intros H; cbn. rewrite H; cbn. destruct b; reflexivity. Qed.
-
-Lemma or_true_sound q es l b : reval q es l = Ok (VBool b) ->
-  reval q es (ROr l (RVal (VBool true))) = reval q es (RVal (VBool true)).
-Proof. intros H; cbn. rewrite H; cbn. destruct b; reflexivity. Qed.
-
-(* and the rule is NOT sound without it: an erroring operand must be kept *)
-Lemma and_false_needs_noerr q es l e : reval q es l = Err e ->
-  reval q es (RAnd l (RVal (VBool false))) <> reval q es (RVal (VBool false)).
+(* the absorbing rule is NOT sound without the no-error side condition: an erroring operand must be kept *)
+Lemma and_false_needs_noerr q es l e : reval cx q es l = Err e ->
+  reval cx q es (RAnd l (RVal (VBool false))) <> reval cx q es (RVal (VBool false)).
 Proof. intros H; cbn. rewrite H; cbn. discriminate. Qed.
 
-(* request variables: the interpreted variable evaluates like the variable on a consistent request *)
-Lemma var_sound pq pes q es v : v <> Context -> request_consistent pq q = true ->
-  reval q es (interp pq pes (RVar v)) = reval q es (RVar v).
-Proof.
-  intros Hv H. unfold request_consistent in H.
-  repeat (apply andb_prop in H as [H ?]).
-  destruct v; cbn; try congruence.
-  - destruct (pq_pid pq) as [i|] eqn:E; cbn; [|reflexivity].
-    unfold opt_agrees in *. 
-    match goal with Hn : name_eqb (uty (rprincipal q)) (pq_pty pq) = true |- _ => apply strs_eqb_eq in Hn; rewrite <- Hn end.
-    match goal with Hi : str_eqb i (ueid (rprincipal q)) = true |- _ => apply str_eqb_eq in Hi; rewrite Hi end.
-    destruct (rprincipal q); reflexivity.
-  - match goal with Ha : uid_eqb (raction q) (pq_action pq) = true |- _ => apply uid_eqb_eq in Ha; rewrite Ha end.
-    reflexivity.
-  - destruct (pq_rid pq) as [i|] eqn:E; cbn; [|reflexivity].
-    unfold opt_agrees in *.
-    match goal with Hn : name_eqb (uty (rresource q)) (pq_rty pq) = true |- _ => apply strs_eqb_eq in Hn; rewrite <- Hn end.
-    match goal with Hi : str_eqb i (ueid (rresource q)) = true |- _ => apply str_eqb_eq in Hi; rewrite Hi end.
-    destruct (rresource q); reflexivity.
-Qed.
-
-(* `is` on an unknown principal / resource is decided from the request's type *)
-Lemma is_var_sound pq pes q es t : request_consistent pq q = true -> pq_pid pq = None ->
-  reval q es (interp pq pes (RIs (RVar Principal) t)) = reval q es (RIs (RVar Principal) t).
-Proof.
-  intros H Hn. unfold request_consistent in H. repeat (apply andb_prop in H as [H ?]).
-  cbn. rewrite Hn. cbn.
-  match goal with Hx : name_eqb (uty (rprincipal q)) (pq_pty pq) = true |- _ => apply strs_eqb_eq in Hx; rewrite <- Hx end.
-  unfold name_eqb. f_equal. f_equal.
-  destruct (strs_eqb t (uty (rprincipal q))) eqn:E1, (strs_eqb (uty (rprincipal q)) t) eqn:E2; try reflexivity.
-  - apply strs_eqb_eq in E1. subst. rewrite (proj2 (strs_eqb_eq _ _) eq_refl) in E2. discriminate.
-  - apply strs_eqb_eq in E2. rewrite <- E2 in E1. rewrite (proj2 (strs_eqb_eq _ _) eq_refl) in E1. discriminate.
-Qed.
+End WithExt.
